@@ -57,6 +57,9 @@ def gen(seed, run, sub="clean", tier="quick"):
     if transport == "socket":
         fr = r.choice([0, 1, 2, 3, 7, 64])
         draws["cut"] = [r.choice([fr, fr, 0.5, 0]) for _ in range(24)] if fr else []
+        if r.random() < 0.4:      # reply lines travelling in two segments, sometimes > read time-out apart
+            draws["seg"] = [r.choice([0, 0, 0.3, 0.5, 0.9]) for _ in range(16)]
+            draws["seggap"] = [r.choice([0.0, 0.001, 0.1, 0.3, 0.6]) for _ in range(8)]
         draws["spurious"] = [1 if r.random() < 0.1 else 0 for _ in range(16)] if r.random() < 0.3 else []
     cfg = {"greeting": r.choice(GREETINGS), "boot": r.choice([0.0, 0.05, 1.2]),
            "drop_while_booting": r.random() < 0.3, "resend_with_ok": True}
